@@ -525,6 +525,7 @@ func (w *watch) stop() {
 	}
 
 	_ = w.watcher.Close()
+	w.watcher = nil
 	w.tracked = nil
 }
 
@@ -559,6 +560,13 @@ func (w *watch) watch(fsw *fsnotify.Watcher, m *sync.Mutex, refresh func() error
 			verifEvent(event.Op.String(), event.Name, true)
 
 			m.Lock()
+			if w.watcher != fsw {
+				// our watcher has been replaced or stopped while we were
+				// waiting for the lock: the event belongs to a configuration
+				// which is gone, and so does dirErrors
+				m.Unlock()
+				return
+			}
 			if event.Op == fsnotify.Remove && w.tracked[event.Name] {
 				w.update(dirErrors, event.Name)
 			} else {
